@@ -219,4 +219,85 @@ theorem old_guard_no_crlf (init : St) (ops : List Op) (lines : List Str)
     simp only [forbiddenByteOld, Bool.or_eq_true, beq_iff_eq, not_or] at this
     exact this
 
+/-! ### the connection-level API (`write_headers` called directly, `WSGIContainer`): the reason is unvalidated,
+the guard of `write_headers` over the START LINE and every header line is the only defence -/
+
+theorem wh_no_ctl {code : Int} {reason : Str} {h : Headers} {lines : List Str}
+    (hw : writeHeadersG forbiddenByte code reason h = .ok lines) :
+    ∀ l ∈ lines, ∀ b ∈ l, b ≠ 13 ∧ b ≠ 10 ∧ b ≠ 0 :=
+  fun l hl => lineOkG_forbidden (List.all_eq_true.mp (writeHeadersG_ok hw).2 l hl)
+
+theorem wh_exact {code : Int} {reason : Str} {h : Headers} {lines : List Str}
+    (hw : writeHeadersG forbiddenByte code reason h = .ok lines) :
+    Spec.readBlock (wire lines) = some (lines, []) ∧ Spec.clean lines = true := by
+  have hc := wh_no_ctl hw
+  have hn : ∀ l ∈ lines, l ≠ [] := by
+    have hl := (writeHeadersG_ok hw).1
+    subst hl
+    intro l hl
+    simp only [List.mem_cons, List.mem_map] at hl
+    rcases hl with rfl | ⟨p, _, rfl⟩
+    · simp [statusLine, ofAscii]
+    · simp [headerLine]
+  constructor
+  · exact readLines_join lines hn (fun l hl b hb => (hc l hl b hb).1) _ (joinLines_length lines)
+  · simp only [Spec.clean, Spec.cleanLine, List.all_eq_true, Bool.and_eq_true, bne_iff_ne, ne_eq]
+    intro l hl b hb
+    have := hc l hl b hb
+    exact ⟨⟨this.1, this.2.1⟩, this.2.2⟩
+
+theorem writeHeadersRawG_ok {forb : Nat → Bool} {code : Int} {reason : Str} {h : Headers} {lines : List Str}
+    (hw : writeHeadersRawG forb code reason h = .ok lines) : writeHeadersG forb code reason h = .ok lines := by
+  unfold writeHeadersRawG at hw
+  split at hw
+  · cases hw
+  · exact hw
+
+/-- **request callback → `connection.write_headers(ResponseStartLine(_, code, reason), headers)`**, any
+reason, any sequence of `h[name] = value` / `h.add(name, value)`: either it raises or the block is exactly
+the start line followed by the headers' lines, a strict reader finds exactly those lines and no remainder,
+and no CR, LF or NUL is inside any line — the start line (the reason) included. -/
+theorem raw_exact_lines (code : Int) (reason : Str) (hops : List HOp) (lines : List Str)
+    (h : (rawResponse code reason hops).2 = .ok lines) :
+    lines = statusLine code reason :: (hAll (hRun [] hops).1).map headerLine ∧
+    Spec.readBlock (wire lines) = some (lines, []) ∧ Spec.clean lines = true ∧
+    ∀ l ∈ lines, ∀ b ∈ l, b ≠ 13 ∧ b ≠ 10 ∧ b ≠ 0 := by
+  have hw := writeHeadersRawG_ok (show writeHeadersRawG forbiddenByte code reason (hRun [] hops).1 = .ok lines from h)
+  exact ⟨(writeHeadersG_ok hw).1, (wh_exact hw).1, (wh_exact hw).2, wh_no_ctl hw⟩
+
+/-- the same for a WSGI application behind `WSGIContainer` (status string `"<code> <reason>"`, header pairs) -/
+theorem wsgi_exact_lines (server ctype : Str) (code : Int) (reason : Str) (hs : List (Str × Str)) (lines : List Str)
+    (h : wsgiResponse server ctype code reason hs = .ok lines) :
+    Spec.readBlock (wire lines) = some (lines, []) ∧ Spec.clean lines = true ∧
+    ∀ l ∈ lines, ∀ b ∈ l, b ≠ 13 ∧ b ≠ 10 ∧ b ≠ 0 := by
+  simp only [wsgiResponse, wsgiResponseG] at h
+  split at h
+  · cases h
+  · have hw := writeHeadersRawG_ok h
+    exact ⟨(wh_exact hw).1, (wh_exact hw).2, wh_no_ctl hw⟩
+
+/-- an accepted start line carries the reason's UTF-8 bytes, so an accepted reason has no CR, LF, NUL -/
+theorem raw_reason_clean (code : Int) (reason : Str) (hops : List HOp) (lines : List Str)
+    (h : (rawResponse code reason hops).2 = .ok lines) : ∀ c ∈ reason, c ≠ 13 ∧ c ≠ 10 ∧ c ≠ 0 := by
+  obtain ⟨hl, _, _, hc⟩ := raw_exact_lines code reason hops lines h
+  intro c hcr
+  have hb : c < 128 → c ∈ statusLine code reason := by
+    intro hlt
+    simp only [statusLine, List.mem_append, List.mem_cons, List.mem_flatMap]
+    exact Or.inr (Or.inr ⟨c, hcr, by simp [utf8Enc1, hlt]⟩)
+  by_cases hlt : c < 128
+  · exact hc _ (by rw [hl]; simp) c (hb hlt)
+  · omega
+
+example : rawResponse 200 (ofAscii "OK") [.set sContentLength [48], .add [88, 45, 97] [118]]
+    = ([none, none], .ok [ofAscii "HTTP/1.1 200 OK", ofAscii "Content-Length: 0", ofAscii "X-A: v"]) := by rfl
+/-- CR LF in the reason handed to `write_headers` directly: rejected by the guard over the start line -/
+example : rawResponse 200 [79, 75, 13, 10, 88, 58, 32, 49] [.set sContentLength [48]]
+    = ([none], .error .valueError) := by rfl
+example : rawResponse 200 [79, 0, 75] [] = ([], .error .valueError) := by rfl
+example : wsgiResponse [83] [84] 200 [79, 75, 10, 88] [([88, 45, 97], [118])] = .error .valueError := by rfl
+example : wsgiResponse [83] [84] 200 (ofAscii "OK") [([88, 45, 97], [118])]
+    = .ok [ofAscii "HTTP/1.1 200 OK", ofAscii "X-A: v", ofAscii "Content-Length: 0", ofAscii "Content-Type: T",
+           ofAscii "Server: S"] := by rfl
+
 end TornadoModel.C07
